@@ -23,7 +23,7 @@ type Engine struct{}
 func (e *Engine) Name() string { return "repsim" }
 
 func init() {
-	sim.Register(&Engine{}, "C01", "C02", "C03", "C04", "C05", "C10")
+	sim.Register(&Engine{}, "C01", "C02", "C03", "C04", "C05", "C09", "C10")
 }
 
 const baseWall = 1_700_000_000
@@ -385,6 +385,8 @@ func (x *run) execStep(s *sim.Step) {
 	case "pull", "merge", "fetch":
 		err = x.guard("pull", func() error { return x.stepPull(rs, s, pre) })
 		concurrent = true
+	case "identmut":
+		err = x.guard("identity mutate", func() error { return x.stepIdentMut(rs, s) })
 	case "restart":
 		err = x.guard("restart", func() error { return x.stepRestart(rs, s) })
 		concurrent = true
@@ -998,6 +1000,100 @@ func (x *run) partialFetch(rs *repState, remote string, preTrack map[string]stri
 	}
 }
 
+// stepIdentMut mutates an identity and commits the new version. Outside C09 only the
+// replica's own identities are touched (diverged identities never converge by design).
+func (x *run) stepIdentMut(rs *repState, s *sim.Step) error {
+	var pool []entity.Id
+	if x.on("C09") {
+		pool = x.knownIdents(rs)
+	} else {
+		for _, id := range x.knownIdents(rs) {
+			for _, o := range rs.own {
+				if o == id {
+					pool = append(pool, id)
+				}
+			}
+		}
+	}
+	if len(pool) == 0 {
+		return fmt.Errorf("no identity")
+	}
+	id := pool[s.B%len(pool)]
+	invalid := s.K == "invalid"
+	mut := func(m *identity.Mutator) {
+		switch s.K {
+		case "name":
+			m.Name = s.S
+		case "email":
+			m.Email = strings.ReplaceAll(s.S, " ", ".") + "@example.org"
+		case "login":
+			m.Login = strings.ReplaceAll(s.S, " ", "-")
+		case "avatar":
+			m.AvatarUrl = "https://example.org/" + fmt.Sprint(s.Id) + ".png"
+		case "invalid":
+			switch s.N % 4 {
+			case 0:
+				m.Name, m.Login = "", ""
+			case 1:
+				m.Name = "bad\x07name"
+			case 2:
+				m.AvatarUrl = "not a url"
+			case 3:
+				m.Email = "two\nlines"
+			}
+		}
+	}
+	before, _ := model.ReadIdentity(rs.r.Raw, "refs/identities/"+string(id))
+	var err error
+	if rs.r.Cache != nil {
+		var ic *cache.IdentityCache
+		ic, err = rs.r.Cache.Identities().Resolve(id)
+		if err != nil {
+			return err
+		}
+		if s.K == "meta" {
+			ic.SetMetadata("k"+fmt.Sprint(s.N%3), s.S)
+		} else if err = ic.Mutate(rs.r.Sim, mut); err != nil {
+			goto done
+		}
+		err = ic.CommitAsNeeded()
+	} else {
+		var i *identity.Identity
+		i, err = identity.ReadLocal(rs.r.Sim, id)
+		if err != nil {
+			return err
+		}
+		if s.K == "meta" {
+			i.SetMetadata("k"+fmt.Sprint(s.N%3), s.S)
+		} else if err = i.Mutate(rs.r.Sim, mut); err != nil {
+			goto done
+		}
+		err = i.CommitAsNeeded(rs.r.Sim)
+	}
+done:
+	if invalid && x.on("C09") {
+		after, _ := model.ReadIdentity(rs.r.Raw, "refs/identities/"+string(id))
+		x.probe("invalid_identity_version_tried")
+		if err == nil || len(after) != len(before) {
+			x.violate("invalid-identity-accepted", "identity %s on %s: invalid mutation (variant %d) returned %v, stored chain went from %d to %d versions", id[:7], rs.r.Name, s.N%4, err, len(before), len(after))
+		}
+		return nil
+	}
+	if err == nil {
+		x.probe("identity_version_written")
+		home := -1
+		for _, ii := range x.idents {
+			if ii.Id == id {
+				home = ii.Home
+			}
+		}
+		if home != rs.r.Idx {
+			x.probe("identity_mutated_away_from_home")
+		}
+	}
+	return err
+}
+
 func (x *run) stepRestart(rs *repState, s *sim.Step) error {
 	r := rs.r
 	if rs.alive {
@@ -1069,6 +1165,8 @@ func (x *run) nontrivial() bool {
 		return n["ledger"]
 	case "C05":
 		return x.w.Stats.Probes["restart_clean"]+x.w.Stats.Probes["restart_dirty"]+x.w.Stats.Probes["reopen_without_clock_files"]+x.w.Stats.Probes["merge_commit"] > 0
+	case "C09":
+		return n["ident-updated"] || n["ident-diverged"]
 	case "C10":
 		return n["interp"]
 	}
